@@ -312,6 +312,36 @@ class ErrAnalysis:
         for l, d in enumerate(f.locals):
             if l != 0 and is_result_unit(d["ty"]) and len(f.full_defs(l)) > 1:
                 tracked.add(l)
+        # tuples that carry a Result<_, ()> in a field (`let (flag, result) = match .. { .. => (a, Err(())) }`): the field's tag is
+        # kept under a synthetic key, and the local the field is read into is tracked like a multi-definition Result local
+        tuples = {}
+        for l, d in enumerate(f.locals):
+            ty = d["ty"] or ""
+            if l != 0 and ty.startswith("(") and ty.endswith(")") and "Result<" in ty:
+                fields, depth_, cur = [], 0, ""
+                for ch in ty[1:-1]:
+                    if ch in "<([":
+                        depth_ += 1
+                    elif ch in ">)]":
+                        depth_ -= 1
+                    if ch == "," and depth_ == 0:
+                        fields.append(cur.strip())
+                        cur = ""
+                    else:
+                        cur += ch
+                if cur.strip():
+                    fields.append(cur.strip())
+                idx = [i for i, ft in enumerate(fields) if is_result_unit(ft)]
+                if idx:
+                    tuples[l] = idx
+        for l, d in enumerate(f.locals):
+            if l != 0 and l not in tracked and is_result_unit(d["ty"]):
+                for x in f.full_defs(l):
+                    if x[0] == "stmt" and x[3]["k"] == "assign" and x[3]["rv"]["k"] == "use":
+                        pl = x[3]["rv"]["op"].get("move") or x[3]["rv"]["op"].get("copy")
+                        if pl and pl["l"] in tuples and len(pl.get("p") or []) == 1 and isinstance(pl["p"][0], dict) and pl["p"][0].get("f") in tuples[pl["l"]]:
+                            tracked.add(l)
+        P["tuples"] = tuples
         P["tracked"] = tracked
         sw = {}
         for b in f.reachable():
@@ -482,9 +512,19 @@ class ErrAnalysis:
                     d = dict(fl)
                     d[dl] = c
                     fl = tuple(sorted(d.items(), key=str))
+                elif dl in P.get("tuples", {}) and rv["k"] == "agg" and rv.get("agg") == "tuple":
+                    for i_ in P["tuples"][dl]:
+                        if i_ < len(rv["ops"]):
+                            tag = self.value_tag(f, rv["ops"][i_], P)
+                            if tag[0] == "var":
+                                tag = get_tag(vals, tag[1]) or ("unk", "unassigned")
+                            vals = set_tag(vals, 100000 + dl * 16 + i_, tag)
                 elif dl in P["tracked"]:
+                    pl_ = (rv["op"].get("move") or rv["op"].get("copy")) if rv["k"] == "use" and isinstance(rv.get("op"), dict) else None
                     if rv["k"] == "agg" and rv.get("agg") == "adt" and rv["adt"].endswith("Result"):
                         vals = set_tag(vals, dl, ("ok",) if rv["variant"] == "Ok" else ("err",))
+                    elif pl_ and pl_["l"] in P.get("tuples", {}) and len(pl_.get("p") or []) == 1 and isinstance(pl_["p"][0], dict) and pl_["p"][0].get("f") in P["tuples"][pl_["l"]]:
+                        vals = set_tag(vals, dl, get_tag(vals, 100000 + pl_["l"] * 16 + pl_["p"][0]["f"]) or ("unk", "tuple field"))
                     elif rv["k"] == "use":
                         tag = self.value_tag(f, rv["op"], P)
                         if tag[0] == "var":
